@@ -19,7 +19,8 @@ def write_world(w, d, gtf_gz=False, with_meta=True, **gtf_kw):
 def std_args(d, out, data_type="nanopore", threads=2, annotated=True, prefix=PREFIX, bam=None, complete=True, extra=(), bam_list=None):
     a = ["-o", out, "-d", data_type, "-r", os.path.join(d, "g.fa"), "-t", str(threads), "-p", prefix, "--no_gzip", "--force"]
     if bam_list:
-        a += ["--bam_list", bam_list]           # several experiments in one run; outputs in <out>/<experiment name>/
+        # several experiments in one run; outputs in <out>/<experiment name>/ (a .yaml / .yml path is passed with --yaml)
+        a += ["--yaml" if bam_list.endswith((".yaml", ".yml")) else "--bam_list", bam_list]
     else:
         a += ["--bam"] + (bam if bam else [os.path.join(d, "r.bam")])
     if annotated:
